@@ -1,0 +1,7 @@
+//go:build !verif
+
+package gojq
+
+// verifOptOff reports whether compiler rewrite k is disabled. Without the verif
+// build tag no rewrite can be disabled and the calls fold away.
+func verifOptOff(int) bool { return false }
